@@ -243,14 +243,16 @@ class SimMachine(object):
         self.alloc_fail = None
         self.p2p_none = set()      # chips listed as unreachable in p2p table
         self.full_sync = True      # also materialise p2p table + router copy
+        self.full_sync_chips = None  # restrict the full sync to these chips
         if (0, 0) in self.chips:
             c = self.chips[(0, 0)]
             c.eth_up = True
             c.ip = (10, 0, 0, 1)
 
     def sync(self):
-        for c in self.chips.values():
-            c.sync_structs(self.full_sync)
+        for xy, c in self.chips.items():
+            c.sync_structs(self.full_sync if self.full_sync_chips is None
+                           else xy in self.full_sync_chips)
 
     def p2p_entry(self, chip, col, row):
         if (col, row) not in self.chips or (col, row) in self.p2p_none:
